@@ -223,7 +223,8 @@ def replay_generic(obj, vd, prop):
         a += flags
         run_harness(exe, a)
     elif world == "tcp_peer" and ev0.get("src") == "random":
-        run_harness(exe, ["tcp-peer-random", "--seed", ev0["seed"], "--runs", ev0["run"] + 1, "--only", ev0["run"], "--steps", 150, "--out", tf])
+        base = ev0.get("reuse_of", ev0["run"])  # a reuse connection is replayed together with the run whose socket it reuses
+        run_harness(exe, ["tcp-peer-random", "--seed", ev0["seed"], "--runs", base + 1, "--only", base, "--steps", 150, "--out", tf])
     else:
         # TLC schedule: rebuild the step list from the recorded events' stimuli
         steps = []
